@@ -171,6 +171,11 @@ def run_tool(flavour, tool, schema_name, schema_text, perturb=None, args=(), cpu
             env["EXPRESS_PATH"] = src_dir
         if pb.get("env_pad"):
             env["VERIF_PAD"] = "x" * int(pb["env_pad"])
+        for k_, v_ in (pb.get("env_vars") or {}).items():
+            # HOME, TMPDIR, LANG, USER, TZ, COLUMNS ...: nothing a generator writes may depend on them
+            env[k_] = v_.replace("<top>", top)
+            if k_ == "TMPDIR":
+                os.makedirs(env[k_], exist_ok=True)
         if flavour == "san":
             env["ASAN_OPTIONS"] = "exitcode=77:detect_leaks=0:abort_on_error=0:allow_user_segv_handler=0:handle_abort=0:detect_stack_use_after_return=0"
             env["UBSAN_OPTIONS"] = "halt_on_error=1:exitcode=78:print_stacktrace=1"
